@@ -37,14 +37,22 @@ Snap(name) == T.snaps[CHOOSE i \in DOMAIN T.snaps : T.snaps[i].st = name].sl
 Final == T.snaps[Len(T.snaps)].sl
 HasW(sl) == \E i \in DOMAIN sl : sl[i].k = "W"
 
-(* ---- every stage only refines unlabelled sections into parts that concatenate to them ---- *)
+(* ---- lossless tiling: the sections spell `orig` left to right; ONLY website sections hold lower-cased text ---- *)
+RECURSIVE Tile(_, _)
+Tile(orig, sl) ==
+   IF sl = <<>> THEN orig = <<>>
+   ELSE IF sl[1].k = "W"
+          THEN \E n \in 0..Len(orig) : Low(SubSeq(orig, 1, n)) = sl[1].t /\ Tile(SubSeq(orig, n + 1, Len(orig)), Tail(sl))
+          ELSE /\ Len(sl[1].t) <= Len(orig) /\ SubSeq(orig, 1, Len(sl[1].t)) = sl[1].t
+               /\ Tile(SubSeq(orig, Len(sl[1].t) + 1, Len(orig)), Tail(sl))
+
+(* ---- every stage only refines unlabelled sections into parts that tile them ---- *)
 RECURSIVE Refines(_, _)
 Refines(a, b) ==
    IF a = <<>> THEN b = <<>>
    ELSE IF ~NoLab(a[1]) THEN b # <<>> /\ b[1] = a[1] /\ Refines(Tail(a), Tail(b))
    ELSE \E k \in 1..Len(b) :
-            /\ \/ Texts(SubSeq(b, 1, k)) = a[1].t
-               \/ (HasW(SubSeq(b, 1, k)) /\ Low(Texts(SubSeq(b, 1, k))) = Low(a[1].t))
+            /\ Tile(a[1].t, SubSeq(b, 1, k))
             /\ Refines(Tail(a), SubSeq(b, k + 1, Len(b)))
 
 (* ---- exact stages: digit (first maximal digit run of every unlabelled section, repeatedly = all runs) and other ---- *)
@@ -125,7 +133,7 @@ ClauseName(k) == <<"C05_parse_never_raises", "C05_tiling", "C05_every_stage_refi
                    "C05_counters_are_tallies", "C05_structure_counters">>[k]
 ClauseHolds(k) ==
   CASE k = 1 -> ~T.raised
-    [] k = 2 -> T.raised \/ Texts(Final) = T.pw \/ (HasW(Final) /\ Low(Texts(Final)) = Low(T.pw))
+    [] k = 2 -> T.raised \/ Tile(T.pw, Final)
     [] k = 3 -> T.raised \/ \A i \in 1..(Len(T.snaps) - 1) : Refines(T.snaps[i].sl, T.snaps[i + 1].sl)
     [] k = 4 -> T.raised \/ \A i \in DOMAIN Final : Sound(Final[i])
     [] k = 5 -> T.raised \/ DigitMaximal
